@@ -732,9 +732,14 @@ PROPERTIES = {
             "the counter is decremented before every successful return. BND6: every loop of the family steps a cursor "
             "or counter forward on every iteration. TAB2: the string entry points add only strlen+1. OWN2 over the parse family: "
             "whatever a parsing function allocates is linked into the result, released, or handed to a callee that takes it, on "
-            "every path (the 'or a leak' clause; allocation failures included).",
-        'not_decided': ["write bound of parse_string's output block (count over the whole literal)",
-                        'leak freedom on every exit (OWN rules, C03/C08)',
+            "every path (the 'or a leak' clause; allocation failures included). OUT9: the string parse_string decodes fits the block "
+            "allocated for it - a count over the whole literal assembled from facts about single steps: the scan counts one saved "
+            "byte at most per step and only for two-byte steps, starting from 0; the block's size is, as a linear expression, at "
+            "least (end - start) - count + 1; the decoder starts where the scan started, stops at its end, and every turn of its "
+            "loop writes one byte for one plain byte and at most ceil(a/2) for a bytes led by a backslash (the UTF-16 arm through "
+            "the value-set engine of TAB6: every successful path writes at most half of what it reports as consumed); one "
+            "terminator behind the loop.",
+        'not_decided': ['leak freedom on every exit (OWN rules, C03/C08)',
                         'that the returned tree can be walked/printed/deleted (LST1 covers the tail link only)',
                         'absence of UB in arithmetic other than the int saturation template (TAB7)'],
     },
